@@ -209,7 +209,12 @@ TrPanic ==
                ELSE IF Ev.k \in DOMAIN ref /\ ~Served(Ev.k) THEN {"C15_Panic"}
                ELSE {"C08_Panic", "C15_Panic"})
 
-Known == {"Reset", "Keys", "Set", "Incr", "Get", "Close", "Open", "List", "Files", "Panic", "Fatal"}
+\* the buckets the store opened must be exactly the buckets the route table gave this server
+TrReady ==
+  /\ IsEv("Ready") /\ Adv /\ UNCHANGED <<sid, cf, fsz, ref, cont, pend, mode>>
+  /\ Flag(IF {Ev.ready[i] : i \in 1..Len(Ev.ready)} = cf.served THEN {} ELSE {"C15_Served"})
+
+Known == {"Reset", "Keys", "Set", "Incr", "Get", "Close", "Open", "List", "Files", "Panic", "Fatal", "Ready"}
 TrOther ==      \* Flush, GC, Skip, Abort, End: no effect on the content
   /\ l <= Len(Trace) /\ Trace[l].a \notin Known /\ Adv
   /\ mode' = IF Trace[l].a = "Abort" THEN "dead" ELSE mode
@@ -219,7 +224,7 @@ TraceInit ==
   /\ l = 1 /\ sid = "" /\ cf = NoConf /\ ref = <<>> /\ cont = {} /\ mode = "dead" /\ fsz = <<>> /\ pend = NoPend /\ bad = {}
   /\ TLCSet(1, 1) /\ HDummy
 
-TraceNext == (TrReset \/ TrKeys \/ TrSet \/ TrIncr \/ TrGet \/ TrClose \/ TrOpen \/ TrList \/ TrFiles \/ TrPanic \/ TrOther) /\ HIdle
+TraceNext == (TrReady \/ TrReset \/ TrKeys \/ TrSet \/ TrIncr \/ TrGet \/ TrClose \/ TrOpen \/ TrList \/ TrFiles \/ TrPanic \/ TrOther) /\ HIdle
 
 TraceSpec == TraceInit /\ [][TraceNext]_<<tvars, hvars>>
 
